@@ -18,9 +18,11 @@ from .gen import Gen, KEY, mix
 
 
 def sweep_scenario(run_seed, tier):
-    g = Gen(run_seed, "C07", tier, force={"cfg": {"with_faults": False}})
-    sc = g.scenario()
     r = random.Random(mix(run_seed, "sweep"))
+    # sweeps cost (crash points) x (live objects re-checked after each point): keep frames and histories moderate
+    g = Gen(run_seed, "C07", tier, force={"cfg": {"with_faults": False, "rows": r.choice([(4, 8), (8, 25), (26, 60)]),
+                                                  "n_ops": r.randint(5, 18)}})
+    sc = g.scenario()
     ops = []
     evals = [i for i, op in enumerate(sc["ops"]) if op["op"] == "eval"]
     builds = [i for i, op in enumerate(sc["ops"]) if op["op"] == "build"]
@@ -32,6 +34,7 @@ def sweep_scenario(run_seed, tier):
         if i in pick_e:
             ops.append({"op": "sweep_eval", "target": op["target"], "root": op["root"], "part": op["part"],
                         "frame": op["frame"], "stride": 1, "alternate": tier != "thorough",
+                        "max_points": 2000 if tier == "thorough" else 260,
                         "mode": r.choice(["line", "call"]), "cold": op["target"] == op["root"] and r.random() < 0.5,
                         "fault": None})
         if i in pick_b:
@@ -57,6 +60,7 @@ def sweep_scenario(run_seed, tier):
         ops.append({"op": "set_config", "style": r.choice(["attr", "item"]), "key": KEY,
                     "value": r.choice(["warning", "silent"]), "valid": True, "fault": None})
         ops.append({"op": "sweep_eval", "target": b["id"], "root": b["id"], "part": part, "frame": fid, "stride": 1,
+                    "max_points": 2000 if tier == "thorough" else 260,
                     "mode": r.choice(["line", "call"]), "cold": True, "fault": None})
     for j, op in enumerate(ops):
         op["n"] = j
